@@ -525,8 +525,8 @@ class WcsSampler(object):
             # Now figure out how many samples to compute in our refined grid.
             # We want to sample essentially every pixel.
 
-            n1 = max(int(np.ceil(coarse_idx1[hi1] - coarse_idx1[lo1])), 1)
-            n2 = max(int(np.ceil(coarse_idx2[hi2] - coarse_idx2[lo2])), 1)
+            n1 = max(int(np.ceil(coarse_idx1[hi1] - coarse_idx1[lo1])), 2)
+            n2 = max(int(np.ceil(coarse_idx2[hi2] - coarse_idx2[lo2])), 2)
 
             # Generate that grid.
 
@@ -592,7 +592,7 @@ class WcsSampler(object):
                 # "top" edge (thinking of array as [lon, lat] ~ [x, y])
                 lo = max(e - 1, 0)
                 hi = min(e + 1, nm)
-                n = max(int(np.ceil(coarse_idx1[hi] - coarse_idx1[lo])), 1)
+                n = max(int(np.ceil(coarse_idx1[hi] - coarse_idx1[lo])), 2)
                 refined_idx1 = np.linspace(coarse_idx1[lo], coarse_idx1[hi], n)
                 refined_idx2 = np.zeros(n) + coarse_idx2[0]
             elif e < 2 * nm:
@@ -600,7 +600,7 @@ class WcsSampler(object):
                 rel = e - nm
                 lo = max(rel - 1, 0)
                 hi = min(rel + 1, nm)
-                n = max(int(np.ceil(coarse_idx2[hi] - coarse_idx2[lo])), 1)
+                n = max(int(np.ceil(coarse_idx2[hi] - coarse_idx2[lo])), 2)
                 refined_idx1 = np.zeros(n) + coarse_idx1[nm]
                 refined_idx2 = np.linspace(coarse_idx2[lo], coarse_idx2[hi], n)
             elif e < 3 * nm:
@@ -608,7 +608,7 @@ class WcsSampler(object):
                 rel = 3 * nm - (1 + e)
                 lo = max(rel - 1, 0)
                 hi = min(rel + 1, nm)
-                n = max(int(np.ceil(coarse_idx1[hi] - coarse_idx1[lo])), 1)
+                n = max(int(np.ceil(coarse_idx1[hi] - coarse_idx1[lo])), 2)
                 refined_idx1 = np.linspace(coarse_idx1[lo], coarse_idx1[hi], n)
                 refined_idx2 = np.zeros(n) + coarse_idx2[nm]
             else:
@@ -617,7 +617,7 @@ class WcsSampler(object):
                 rel = 4 * nm - e
                 lo = max(rel - 1, 0)
                 hi = min(rel + 1, nm)
-                n = max(int(np.ceil(coarse_idx2[hi] - coarse_idx2[lo])), 1)
+                n = max(int(np.ceil(coarse_idx2[hi] - coarse_idx2[lo])), 2)
                 refined_idx1 = np.zeros(n) + coarse_idx1[0]
                 refined_idx2 = np.linspace(coarse_idx2[lo], coarse_idx2[hi], n)
 
